@@ -57,6 +57,10 @@ type sim struct {
 	wrng         *simcore.RNG
 	lastHRS      string
 	lastSkipped  []string
+	starved      int   // commit_starve: the node that waited in the commit step, its height and commit round
+	starvedH     int64
+	starvedR     int32
+	starvedLeft  bool
 	inflight     []*inflightMsg
 	inflightSeq  int
 	lastHRSAt    time.Time
@@ -233,12 +237,26 @@ func baseConfig(rng *simcore.RNG, env *simcore.Env) simcore.Op {
 			c["crash"] = false
 		}
 	}
+	// a faulty validator's vote timestamps are its own business: also far in the past
+	// (both dimensions in C06 runs only: they were added in the last hours of the build and the
+	// other properties' oracles have not been swept with them)
+	c["byz_old_ts"] = prop == "C06" && rng.Bool(0.3)
+	// equal voting powers of 1: quorum and median arithmetic at its smallest numbers
+	if prop == "C06" && nbyz > 0 && !c.Bool("oneval") && nv >= 3 && rng.Bool(0.12) {
+		up := make([]int, len(pw))
+		for i := range up {
+			up[i] = 1
+		}
+		c["powers"] = up
+		c["unit_powers"] = true
+	}
 	c["relay_ahead"] = rng.Bool(0.4) // peers also relay votes of rounds the receiver has not reached
 	// "a decision seen without its block": while a node sits in the commit step without the
 	// block, the network withholds the block from it and the decisive precommits from the others
 	c["commit_starve"] = rng.Bool(0.3)
 	if c.Bool("commit_starve") {
 		c["relay_ahead"] = true
+		c["starve_victim"] = rng.Intn(8)
 	}
 	return c
 }
@@ -673,34 +691,131 @@ func (s *sim) deliverables() []item {
 	return out
 }
 
-// starveFilter (asynchrony bias, before the synchrony point only): while some node knows the
-// decision of its height but not the block, nothing that would give it the block and none of the
-// decisive precommits for the others is delivered - the others time out into later rounds.
-func (s *sim) starveFilter(items []item) []item {
-	rss := s.roundStates()
-	a := -1
-	for _, i := range sortedKeys(rss) {
-		if rs := rss[i]; rs.Step == cstypes.RoundStepCommit && rs.ProposalBlock == nil {
-			a = i
-			break
+// Commit-starve bias (asynchrony before the synchrony point; "a decision seen without its
+// block"). One correct node, the victim, never receives a block while at least two other
+// correct nodes work on the same height; the others are denied every precommit that would
+// complete a +2/3 majority for a block at them (and all precommits of faulty validators), so
+// the victim is the first to know the decision - without the block - while the others only see
+// +2/3 of any precommits, time out into later rounds and vote there. Those later-round votes
+// are relayed to the victim (relay_ahead). Once the victim has left the commit step without
+// deciding, or has decided, the withheld precommits flow again. starveFilter removes the
+// withheld items, starveSteer prefers the deliveries and timeouts that drive the scenario.
+func (s *sim) starveScene() (v int, rss map[int]*cstypes.RoundState, ok bool) {
+	v = s.cfg.Int("starve_victim") % len(s.nodes)
+	rss = s.roundStates()
+	rv := rss[v]
+	if rv == nil {
+		return v, rss, false
+	}
+	same := 0
+	for i, rs := range rss {
+		if i != v && rs.Height == rv.Height {
+			same++
 		}
 	}
-	if a < 0 {
+	return v, rss, same >= 2
+}
+
+func (s *sim) starveFilter(items []item) []item {
+	v, rss, ok := s.starveScene()
+	if !ok {
 		return items
 	}
-	ra := rss[a]
+	rv := rss[v]
+	released := s.starvedH == rv.Height && s.starvedLeft
+	if rv.Step == cstypes.RoundStepCommit && rv.ProposalBlock == nil {
+		s.starved, s.starvedH, s.starvedR, s.starvedLeft = v, rv.Height, rv.CommitRound, false
+	} else if s.starvedH == rv.Height && !s.starvedLeft && rv.Step != cstypes.RoundStepCommit {
+		s.starvedLeft = true // it left the commit step without deciding
+		released = true
+	}
+	total := rv.Validators.TotalVotingPower()
 	var out []item
 	for _, it := range items {
-		if it.to == a && (it.kind == "part" || it.kind == "cpart" || it.kind == "proposal") {
+		if it.to == v && it.h == rv.Height && (it.kind == "part" || it.kind == "cpart" || it.kind == "proposal" || it.kind == "bprop" || it.kind == "bpart") {
 			continue
 		}
-		if it.to != a && it.h == ra.Height && it.typ == 2 && it.r == ra.CommitRound {
-			continue
+		if !released && it.to != v && it.to >= 0 && it.h == rv.Height && it.typ == 2 {
+			if it.from < 0 || it.kind == "maj23" || it.kind == "cmaj23" {
+				continue
+			}
+			if it.kind == "vote" && it.from < len(s.nodes) {
+				ro, ra := rss[it.to], rss[it.from]
+				if ro != nil && ra != nil && ra.Height == it.h && ro.Height == it.h {
+					if va := voteSetOf(ra, it.r, 2); va != nil {
+						if vote := va.GetByIndex(int32(it.val)); vote != nil && len(vote.BlockID.Hash) > 0 {
+							have := int64(0)
+							if vo := voteSetOf(ro, it.r, 2); vo != nil {
+								for i, val := range ro.Validators.Validators {
+									if x := vo.GetByIndex(int32(i)); x != nil && x.BlockID.Equals(vote.BlockID) {
+										have += val.VotingPower
+									}
+								}
+							}
+							_, val := ra.Validators.GetByIndex(int32(it.val))
+							if val != nil && 3*(have+val.VotingPower) > 2*total {
+								continue
+							}
+						}
+					}
+				}
+			}
 		}
 		out = append(out, it)
 	}
 	s.env.Count("probe.commit_starve_active")
 	return out
+}
+
+func (s *sim) starveSteer(rng *simcore.RNG, items []item, pend []*simNode) simcore.Op {
+	v, rss, ok := s.starveScene()
+	if !ok || !rng.Bool(0.6) {
+		return nil
+	}
+	rv := rss[v]
+	pick := func(f func(it item) bool) simcore.Op {
+		var sel []item
+		for _, it := range items {
+			if f(it) {
+				sel = append(sel, it)
+			}
+		}
+		if len(sel) == 0 {
+			return nil
+		}
+		return sel[rng.Intn(len(sel))].op()
+	}
+	if s.starvedH == rv.Height && s.starvedLeft {
+		// the others now learn the decision and move on
+		return pick(func(it item) bool {
+			return it.to != v && it.from >= 0 && it.h == rv.Height && it.typ == 2 && it.r == s.starvedR && it.kind == "vote"
+		})
+	}
+	if rv.Step != cstypes.RoundStepCommit {
+		// the victim learns the others' votes first
+		if op := pick(func(it item) bool { return it.to == v && it.h == rv.Height && it.kind == "vote" }); op != nil {
+			return op
+		}
+		return nil
+	}
+	if op := pick(func(it item) bool { return it.to == v && it.kind == "vote" && it.h == rv.Height && it.r > rv.Round }); op != nil {
+		return op
+	}
+	if s.cfg.Bool("real_ticker") {
+		return nil
+	}
+	var others []*simNode
+	for _, n := range pend {
+		if rs := rss[n.idx]; n.idx != v && rs != nil && rs.Height == rv.Height && rs.Step != cstypes.RoundStepCommit {
+			others = append(others, n)
+		}
+	}
+	if len(others) > 0 {
+		n := others[rng.Intn(len(others))]
+		ti, _, _ := n.ticker.Pending()
+		return simcore.Op{"a": "timeout", "node": n.idx, "dt": rng.Intn(int(ti.Duration/time.Millisecond) + 1)}
+	}
+	return nil
 }
 
 // commitFor returns the commit for height h as node a can serve it.
@@ -900,6 +1015,11 @@ func (s *sim) Next(rng *simcore.RNG) simcore.Op {
 	for _, n := range s.nodes {
 		if !n.isAlive() && n.startFails < 2 {
 			dead = append(dead, n)
+		}
+	}
+	if s.cfg.Bool("commit_starve") && !dirActive {
+		if op := s.starveSteer(rng, items, pend); op != nil {
+			return op
 		}
 	}
 	roll := rng.Intn(1000)
